@@ -60,8 +60,13 @@ def stream_cipher(ctx, res, nkeys):
         op = os.path.join(tmp, "o%d" % ki)
         open(kp, "wb").write(key)
         open(op, "wb").write(other)
-        for ln in (lengths if ki < 2 or ctx.thorough() else rng.sample(lengths, 12)):
-            pt = bytes(rng.getrandbits(8) for _ in range(ln)) if rng.random() < 0.7 else ("é%d" % ln * ln)[:ln].encode()[:ln]
+        plan = [(ln, None) for ln in (lengths if ki < 2 or ctx.thorough() else rng.sample(lengths, 12))]
+        # plaintexts related to the key: equal leading bytes (the XOR then starts with NUL bytes), the key itself, NUL-led data
+        plan += [(0, key[:1] + b"tail"), (0, key[:5] + b"x"), (0, key), (0, key + key[:3]), (0, b"\x00\x00abc"), (0, b"\x00" * 33),
+                 (0, bytes(b ^ 0x20 for b in key[:8])), (0, bytes([key[0] ^ 0x0a]) + b"line"), (0, b"ends with the key byte" + key[22:23])]
+        for ln, fixed in plan:
+            pt = fixed if fixed is not None else (bytes(rng.getrandbits(8) for _ in range(ln)) if rng.random() < 0.7 else ("é%d" % ln * ln)[:ln].encode()[:ln])
+            ln = len(pt)
             for method in ("aes", "xor", "best"):
                 case = {"stream": "cipher", "key": key.hex(), "method": method, "plaintext": pt.hex()}
                 nt = (method != "xor" and ln > 16 and ln % 16 != 0) or (method == "xor" and ln > 32)
@@ -72,9 +77,13 @@ def stream_cipher(ctx, res, nkeys):
                         sv2 = kf.encrypt(pt, method)
                 if sv1.method not in ("aes", "xor") or (method == "best" and sv1.method != "aes") or (method != "best" and sv1.method != method):
                     res.violate(None, "recorded method is not the concrete one", dict(case, recorded=sv1.method))
-                with KeyFile(kp) as kf2:                       # another object = another session
-                    back = kf2.decrypt(SecureValue(sv1.method, sv1.ciphertext))
-                    back_best = kf2.decrypt(SecureValue("best", sv1.ciphertext)) if sv1.method == "aes" else back
+                try:
+                    with KeyFile(kp) as kf2:                       # another object = another session
+                        back = kf2.decrypt(SecureValue(sv1.method, sv1.ciphertext))
+                        back_best = kf2.decrypt(SecureValue("best", sv1.ciphertext)) if sv1.method == "aes" else back
+                except Exception as e:  # noqa
+                    res.violate(None, "decrypting what was just encrypted raised %s" % type(e).__name__, dict(case, error=str(e)[:120]))
+                    back = back_best = pt
                 if back != pt or back_best != pt:
                     res.violate(None, "decrypt(encrypt(x)) != x", dict(case, got=back.hex()))
                 if sv1.method == "aes":
@@ -202,6 +211,14 @@ def stream_stored(ctx, res, n):
         cfg._key_filename = kp
         fld = schema._fields["s"]
         secrets = ["x", "pässwörd", "a" * 16, "b" * 33, "  line", "𝄞clef", " "] + ["".join(rng.choice("abcXYZ019 é") for _ in range(rng.randint(1, 40))) for _ in range(n)]
+        # secrets whose XOR ciphertext begins / ends with an ASCII white-space byte, or begins with NUL (transformations of the stored form must not eat them)
+        for ws in (0x20, 0x0a, 0x09, 0x0d, 0x00):
+            a = key[0] ^ ws
+            z = key[5] ^ ws
+            if 0x20 <= a < 0x7f:
+                secrets.append(chr(a) + "tail!")
+            if 0x20 <= z < 0x7f:
+                secrets.append("head!" + chr(z))
         for s in secrets:
             with Urandom() as ur:
                 stored = fld.to_basic(cfg, s)
@@ -214,7 +231,11 @@ def stream_stored(ctx, res, n):
                 continue
             if len(s) > 3 and (s in stored["ciphertext"] or s.encode() in base64.b64decode(stored["ciphertext"])):
                 res.violate(None, "plaintext visible in the stored secret", case)
-            back = fld.to_python(cfg, stored)
+            try:
+                back = fld.to_python(cfg, stored)
+            except Exception as e:  # noqa
+                res.violate(None, "what SecureField stored does not load back: %s" % type(e).__name__, dict(case, error=str(e)[:160]))
+                back = s
             if back != s:
                 res.violate(None, "to_python(to_basic(secret)) != secret", dict(case, got=back))
             iv = ur.log[0].hex() if ur.log else "00" * 16
@@ -222,6 +243,17 @@ def stream_stored(ctx, res, n):
             pend.append(("tb", case, stored))
             reqs.append({"cmd": "secure.topython", "key": key.hex(), "stored": enc_tree(stored)})
             pend.append(("tp", case, ("ok", s)))
+        if method != "xor":
+            # many fresh IVs: some stored values begin or end with a white-space byte, a NUL, ...; all must load back
+            for j in range(120):
+                st = fld.to_basic(cfg, "iv-sweep-%d" % j)
+                res.case(None, kind="iv-sweep")
+                try:
+                    ok = fld.to_python(cfg, st) == "iv-sweep-%d" % j
+                except Exception:  # noqa
+                    ok = False
+                if not ok:
+                    res.violate(None, "a stored AES secret does not load back", {"stream": "iv-sweep", "stored": st})
         for empty in ("", None):
             res.case(None, kind="to_basic:empty")
             if fld.to_basic(cfg, empty) is not None:
